@@ -197,6 +197,40 @@ def run(chk):
             chk.evals(total)
             chk.part('replay_' + cfgname, sequences_replayed=total)
             os.remove(res.dump_path)
+    # reversal-only sequences (every interior sample a reversal) over -3..3 up to 8 (9) samples: the same invariants, deeper HCM memory;
+    # quick replays a fixed twelfth of the sequences with at least 7 samples, thorough all of them
+    cfgname = 'MC_HCM_rev_quick.cfg' if quick else 'MC_HCM_rev_thorough.cfg'
+    res = tlc.run(TLA, os.path.join(SPEC, 'hcm', cfgname), dump=True, timeout=3000, heap='12g')
+    chk.tlc(cfgname, res, 'strictly alternating load sequences over -3..3; SecondPass = Periodic, Memory3, counters')
+    if res.violated:
+        st = res.trace[-1] if res.trace else {}
+        chk.machinery.append('model invariant %s violated for %s (reversal-only instance)' % (res.violated, st.get('s')))
+    if res.dump_path and os.path.exists(res.dump_path):
+        parts = par.split_dump(res.dump_path, 64)
+        sel = []
+        k = 0
+        for blocks in parts:
+            keep = []
+            for b in blocks:
+                i = b.find('s = <<')
+                ln = b[i:b.find('>>', i)].count(',') + 1 if i >= 0 else 0
+                if ln >= 7:
+                    k += 1
+                    if not quick or k % 12 == chk.seed % 12:
+                        keep.append(b)
+            sel.append(keep)
+        total = 0
+        for n, nontriv, drift, viol, samples in par.pmap(_replay_blocks, sel, chunksize=1):
+            total += n
+            for kk in nontriv:
+                chk.nontrivial(kk)
+            chk.drift += drift
+            for what, case, exp, got in viol:
+                chk.violation(what, case, exp, got, part='replay_reversals')
+        chk.cov['traces_validated_against_impl'] += total
+        chk.evals(total)
+        chk.part('replay_' + cfgname, sequences_replayed=total, of_sequences_with_7_or_more_samples=k)
+        os.remove(res.dump_path)
     # (C) recorded longer sequences + refinements, validated by TLC (model conformance + C04 on the logged content)
     rng = random.Random(chk.seed * 6151 + 11)
     nseq = 60 if quick else 500
